@@ -12,7 +12,9 @@ namespace Rx
 structure PlainOp (α β : Type) where
   σ : Type
   init : σ
-  done0 : Bool := false                          -- completed at subscription (`take(0)` is `rx.empty()`)
+  /-- outputs at subscription and whether the operator is already completed then
+  (`take(0)` is `rx.empty()`; a composition whose head completes at once flushes its tail) -/
+  start : List (LOut β) × Bool := ([], false)
   next : σ → α → σ × List (LOut β) × Bool
   fin : σ → List (LOut β)                        -- at source completion; then `on_completed`
 
@@ -57,7 +59,7 @@ def pLast {α} : PlainOp α α :=
 
 /-- RxPY `ops.take(n)`: `take(0)` is `empty()`; otherwise completes with the n-th item -/
 def pTake {α} (n : Nat) : PlainOp α α :=
-  { σ := Nat, init := n, done0 := n = 0,
+  { σ := Nat, init := n, start := ([], n = 0),
     next := fun c x => if c > 1 then (c - 1, [.item x], false) else (0, [.item x], true),
     fin := fun _ => [] }
 
@@ -92,8 +94,16 @@ def feedP {β γ} (P : PlainOp β γ) : P.σ → List (LOut β) → P.σ × List
   | s, .fatal e :: _ => (s, [.fatal e], true)
 
 def compPlain {α β γ} (P1 : PlainOp α β) (P2 : PlainOp β γ) : PlainOp α γ :=
-  { σ := P1.σ × P2.σ, init := (P1.init, P2.init),
-    done0 := P2.done0,          -- (P1.done0 is handled by the runner through `fin`)
+  -- subscription: P2 subscribes to P1; P1's start outputs (and completion) reach P2 at once
+  let st2 : P2.σ × List (LOut γ) × Bool :=
+    if P2.start.2 then (P2.init, P2.start.1, true)
+    else
+      let r2 := feedP P2 P2.init P1.start.1
+      if r2.2.2 then (r2.1, P2.start.1 ++ r2.2.1, true)
+      else if P1.start.2 then (r2.1, P2.start.1 ++ r2.2.1 ++ P2.fin r2.1, true)
+      else (r2.1, P2.start.1 ++ r2.2.1, false)
+  { σ := P1.σ × P2.σ, init := (P1.init, st2.1),
+    start := (st2.2.1, st2.2.2),
     next := fun s x =>
       let r1 := P1.next s.1 x
       let r2 := feedP P2 s.2 r1.2.1
@@ -116,8 +126,11 @@ def PlainOp.runP {α β} (P : PlainOp α β) : P.σ → List α → List (List (
       (r.2.1 :: xs.map (fun _ => []), [])
     else let r2 := P.runP r.1 xs; (r.2.1 :: r2.1, r2.2)
 
+/-- chunks: [subscription] ++ one per item, and the completion chunk -/
 def PlainOp.run {α β} (P : PlainOp α β) (xs : List α) : List (List (LOut β)) × List (LOut β) :=
-  if P.done0 then (xs.map (fun _ => []), []) else P.runP P.init xs
+  if P.start.2 || P.start.1.any (fun o => match o with | .fatal _ => true | _ => false) then
+    (P.start.1 :: xs.map (fun _ => []), [])
+  else let r := P.runP P.init xs; (P.start.1 :: r.1, r.2)
 
 def truncFatal {β} : List (LOut β) → List (LOut β)
   | [] => []
@@ -161,7 +174,7 @@ def PBranches.St {α β} : PBranches α β → Type
 
 def PBranches.init {α β} : (b : PBranches α β) → b.St
   | .nil => ()
-  | .cons P r => ((P.init, P.done0), r.init)
+  | .cons P r => ((P.init, P.start.2), r.init)
 
 def feedPJoin {β γ} (mode : Join) (mk : List (Option β) → γ) (inj : β → γ) (i : Nat) :
     PJoinSt β → List (LOut β) → PJoinSt β × List (LOut γ)
@@ -193,9 +206,21 @@ def PBranches.step {α β γ} (mode : Join) (mk : List (Option β) → γ) (inj 
       let rr := PBranches.step mode mk inj r (i + 1) s.2 jj.1 x
       (((s1, fin), rr.1), rr.2.1, jj.2 ++ rr.2.2)
 
+/-- outputs of the branches at subscription, joined in branch order -/
+def PBranches.startOuts {α β γ} (mode : Join) (mk : List (Option β) → γ) (inj : β → γ) :
+    (b : PBranches α β) → (i : Nat) → PJoinSt β → PJoinSt β × List (LOut γ)
+  | .nil, _, j => (j, [])
+  | .cons P r, i, j =>
+    let jj := feedPJoin mode mk inj i j P.start.1
+    let rr := PBranches.startOuts mode mk inj r (i + 1) jj.1
+    (rr.1, jj.2 ++ rr.2)
+
 def teePlain {α β γ} (mode : Join) (mk : List (Option β) → γ) (inj : β → γ) (b : PBranches α β) : PlainOp α γ :=
+  let j0 : PJoinSt β := ⟨List.replicate b.length none, List.replicate b.length false⟩
+  let st := PBranches.startOuts mode mk inj b 0 j0
   { σ := b.St × PJoinSt β,
-    init := (b.init, ⟨List.replicate b.length none, List.replicate b.length false⟩),
+    init := (b.init, st.1),
+    start := (st.2, b.allDone b.init),
     next := fun s x =>
       let r := PBranches.step mode mk inj b 0 s.1 s.2 (some x)
       ((r.1, r.2.1), r.2.2, b.allDone r.1),
